@@ -406,6 +406,8 @@ register(PropertySpec(
              "(shared with C03) what a negated predicate yields is decided by its (inverted) truth, not by the truthiness of its output"),
         Rule("DEDUP-TESTS-YIELDED-ROW", _lazy("binding", "rule_dedup_tests_yielded_row"), 4,
              "the row the duplicate test looks at is the row that is handed on when it answers 'new' (path rule from every call of the test to the next yield)"),
+        Rule("DECL-FILTER", _lazy("predform", "rule_decl_filter_paths"), 1,
+             "(shared with C13) every supplied domain is filtered by isinstance (a single object of a subclass is a domain of one value)"),
     ],
     explanation="The three outcomes of `the` are decided by a typestate interpretation of its evaluator over the finite "
                 "state space (result None/solution, solutions consumed 0/1/>=2, _is_false_), exception classes resolved "
@@ -772,6 +774,8 @@ register(PropertySpec(
              "(shared with C20) a domain of distinct objects stays distinct: the identifier of a wrapped value is its identity, and an identifier carried in _id_ is believed only of the package's own expressions"),
         Rule("PULLED-RECORD", _lazy("lazy", "rule_pulled_record"), 3,
              "the record of what was pulled from a one-shot source is appended to only with the value just pulled, and emptied only by clear()"),
+        Rule("CONCLUSION-VARS-BOUND", _lazy("ruletree", "rule_conclusion_vars_bound"), 1,
+             "(shared with C12) which variables a conclusion leaves unbound is looked up for every row that fires (a variable without a domain mentioned only by the conclusion of a later branch ranges over the registry too)"),
     ],
     explanation="Registry discipline is ownership: a single writer, on a must-pass-through path of the concrete "
                 "constructor arm, keyed by the runtime class; the symbolic arm provably (call-graph closure) cannot "
